@@ -121,6 +121,25 @@ def run(ctx):
                               % (last[2].cname, out_ or "not examined"), "", None, p.describe())
                     last = None
         ctx.floor("C14-a", "grease stream state advances examined", n_adv, 3)
+    # the "grease frame still owed" flag of a request stream is cleared only after the write it stands for has completed: the
+    # write is awaited, and a caller may drop finish() while it is pending and call it again - the retry must write the frame
+    # (again), not end the stream in the middle of it
+    fin = ru.need(ctx, "C14-a", "h3::connection::RequestStream::finish::{closure#0}")
+    if fin:
+        n_fl = 0
+        for p in ru.all_paths(ctx, "C14-a", fin, max_visits=1):
+            st = [i for i, e in enumerate(p.events) if e[0] == "store" and pa.vfmt(e[4]).endswith(".send_grease_frame")]
+            wr = [i for i, e in enumerate(p.events) if e[0] == "call" and e[2].is_call("h3::stream::write")]
+            if not st or not wr:
+                continue
+            n_fl += 1
+            polls = [i for i, e in enumerate(p.events) if e[0] == "call" and e[2].cname == "poll" and "desugar:Await" in (e[2].mac or "") and i > wr[0]]
+            ok = bool(polls) and st[0] > polls[0]
+            ctx.check(ok, "C14-a", fin.key, "grease flag cleared only after the grease frame's write was awaited",
+                      "finish() clears send_grease_frame %s the await of the grease frame's write: when the transport takes only part of the frame and the "
+                      "pending finish() is dropped, the next finish() skips the rest and ends the stream inside a frame"
+                      % ("before" if polls else "without"), "", None, p.describe())
+        ctx.floor("C14-a", "paths of finish() that clear the grease flag", n_fl, 1)
     # every WriteBuf is built empty, keeps the frame it was given and encodes the header exactly once
     want_calls = {"h3::proto::stream::StreamType": ["encode_stream_type"], "h3::stream::UniStreamHeader": ["encode_value"], "h3::stream::BidiStreamHeader": ["encode_value"],
                   "h3::proto::frame::Frame<B>": ["encode_frame_header"], "(h3::proto::stream::StreamType, h3::proto::frame::Frame<B>)": ["encode_value", "encode_frame_header"]}
